@@ -484,10 +484,20 @@ func (w *dmWorld) openAt(kind int, laddr tcpip.Address, lport uint16, ri, mode, 
 		w.socks = append(w.socks, s)
 		made = s
 	case 2: // TCP listener
-		ep, err := w.S.S.NewEndpoint(tcp.ProtocolNumber, ipv4.ProtocolNumber, &waiter.Queue{})
+		netw, baddr := ipv4.ProtocolNumber, laddr
+		if mode&32 != 0 {
+			// an IPv6 socket bound to the IPv4-mapped form of the address (::ffff:a.b.c.d, or ::ffff:0.0.0.0 for the
+			// wildcard): it listens on IPv4 only and reserves exactly what the IPv4 socket bound to a.b.c.d would
+			netw, baddr = ipv6.ProtocolNumber, mapped(laddr, true)
+			if laddr == "" {
+				baddr = tcpip.Address("\x00\x00\x00\x00\x00\x00\x00\x00\x00\x00\xff\xff\x00\x00\x00\x00")
+			}
+			w.Probes["tcp_listeners_bound_to_a_mapped_ipv4_address"]++
+		}
+		ep, err := w.S.S.NewEndpoint(tcp.ProtocolNumber, netw, &waiter.Queue{})
 		must(err, "tcp endpoint")
 		conflict := w.conflict(true, laddr, lport)
-		e := ep.Bind(tcpip.FullAddress{Addr: laddr, Port: lport}, nil)
+		e := ep.Bind(tcpip.FullAddress{Addr: baddr, Port: lport}, nil)
 		if e == nil {
 			e = ep.Listen(4)
 		}
@@ -1197,6 +1207,9 @@ func (w *dmWorld) next() Step {
 		case 2:
 			if r.Chance(0.25) {
 				mode = 64
+			}
+			if r.Chance(0.2) {
+				mode |= 32 // an IPv6 socket bound to the IPv4-mapped form of the address
 			}
 		case 0, 1:
 			mode = r.Pick(6, 1, 1, 0, 2) // plain / bound through an interface / connected through an interface / wildcard kept
